@@ -126,7 +126,9 @@ def add_features_calculator(mod: fx.GraphModule, extra_rules: List[Callable] = [
             assert dim != 0 and len(input_shape) - dim != 0, \
                 "Squeezing the batch is not supported"
             if dim == 1 or len(input_shape) - dim == 1:
-                flattened_size = input_shape[2]
+                # removing the (size one) features axis turns the next axis into the features;
+                # removing the last axis leaves the features untouched
+                flattened_size = input_shape[2] if dim == 1 else 1
                 n.meta['features_calculator'] = FlattenFeaturesCalculator(ifc, flattened_size)
             else:
                 n.meta['features_calculator'] = ifc  # just propagate the features
